@@ -19,7 +19,7 @@ def add(pid, engine, technique, text, note, ref):
 
 add("C17", "enum", "bounded-exhaustive enumeration of pattern lists x paths vs reference matcher",
     "Every glob pattern of <=3 (quick) / <=4 (thorough) tokens over a 12-token alphabet and every ordered list of 0-3 patterns from a 60-pattern pool is compiled by the real CompileGlobs and matched against every path up to length 5/4 over a 6-letter alphabet; each answer is compared with an independent recursive (rune-aware) matcher; a non-ASCII family repeats this over multi-byte runes. Exhaustive inside those bounds.",
-    "Trusts the reference matcher (35 lines) and Go's regexp; unescaped brackets are outside the stated semantics. The real consumers are driven too: glob() and os.glob() with every include list of 1-2 and exclude list of 0-1 (0-2) patterns of a 20-pattern pool on a generated tree, and dawn.toml ignore lists deciding which packages load, each compared with the reference over the whole tree.", "DESIGN.md section 5 C17")
+    "Trusts the reference matcher (35 lines) and Go's regexp; unescaped brackets are outside the stated semantics. The real consumers are driven too: glob() and os.glob() with every include list of 1-2 and exclude list of 0-1 (0-2) patterns of a 23-pattern pool on a generated tree, and dawn.toml ignore lists deciding which packages load, each compared with the reference over the whole tree.", "DESIGN.md section 5 C17")
 
 SCHED_NOTE = "Trusts the vsched shim's model of sync.Mutex/RWMutex/Cond/WaitGroup/sync.Map/atomic (sequential consistency, no spurious wake-ups, Signal wakes any waiter), fair scheduling for termination, and data-race freedom of the instrumented files (free-running -race pass in the thorough tier). The code explored is the real file from /repo's working tree with only its sync imports and go statements redirected."
 add("C04", "vsched", "stateless exploration of all thread interleavings of the real runner up to a preemption bound (HB-pruned), monitor oracle",
